@@ -186,6 +186,29 @@ theorem bytes_any_chunking (cs : List (Head × Bytes)) (r : Bytes) (hw : chunksW
     Dec.decodeBytes ((Item.strIndef 2 cs).encode ++ r) = some (.bytes (chunksPayload cs), r) :=
   Dec.decodeBytes_refines _ _ r (by simp [Item.wf, hw]) (by simp [ofItem])
 
+/-- **the decoder never leaves the quantifier**: whatever it returns, on any input (malformed,
+    lenient, truncated-then-completed …), has valid constructor tags at every depth — so comparing
+    decoded values cannot panic — and is in `any_constructor` normal form -/
+theorem decoded_in_quantifier (bs : Bytes) (d : PData) (r : Bytes) (h : Dec.decodeBytes bs = some (d, r)) :
+    wfTag d = true ∧ anyCanonical d := Dec.decodeBytes_good bs d r h
+
+/-- decoded values are totally ordered by the library comparison -/
+theorem decoded_cmp_total (bs bs' : Bytes) (a b : PData) (r r' : Bytes)
+    (ha : Dec.decodeBytes bs = some (a, r)) (hb : Dec.decodeBytes bs' = some (b, r')) :
+    ∃ o, cmp? a b = some o ∧ cmp? b a = some o.swap := by
+  have wa := (decoded_in_quantifier bs a r ha).1
+  have wb := (decoded_in_quantifier bs' b r' hb).1
+  refine ⟨cmp a b, cmp?_eq_cmp a b wa wb, ?_⟩
+  rw [cmp?_eq_cmp b a wb wa, laws_cmp.swap b a]
+
+/-- round trip from the byte side: re-encoding a decoded value and decoding again gives the very
+    same value (`fits` holds for every in-memory Rust value) -/
+theorem decode_reencode_stable (bs : Bytes) (d : PData) (r r' : Bytes)
+    (h : Dec.decodeBytes bs = some (d, r)) (hf : fits d = true) :
+    Dec.decodeBytes (encode d ++ r') = some (d, r') := by
+  obtain ⟨hw, hc⟩ := decoded_in_quantifier bs d r h
+  exact pdata_roundtrip_bytes_exact d r' hf hw hc
+
 /-! ## non-vacuity -/
 
 def ex1 : PData := .constr 121 none true [.int (.int 14), .bytes [1, 2, 3], .map false [(.int (.bigU [0, 14]), .array false [])]]
